@@ -43,6 +43,14 @@ from pyttb.pyttb_utils import (
 )
 
 
+def _column_norm(column: np.ndarray, normtype) -> float:
+    """Vector norm that neither underflows nor overflows for badly scaled columns."""
+    scale = np.max(np.abs(column)) if column.size else 0.0
+    if scale == 0 or not np.isfinite(scale):
+        return float(np.linalg.norm(column, ord=normtype))
+    return float(scale * np.linalg.norm(column / scale, ord=normtype))
+
+
 class ktensor:
     """
     KTENSOR Class for Kruskal tensors (decomposed).
@@ -1366,7 +1374,7 @@ class ktensor:
         if mode is not None:
             if mode in range(self.ndims):
                 for r in range(self.ncomponents):
-                    tmp = np.linalg.norm(self.factor_matrices[mode][:, r], ord=normtype)
+                    tmp = _column_norm(self.factor_matrices[mode][:, r], normtype)
                     if tmp > 0:
                         self.factor_matrices[mode][:, r] = (
                             1.0 / tmp * self.factor_matrices[mode][:, r]
@@ -1381,7 +1389,7 @@ class ktensor:
         # ensure that all factor_matrices are normalized
         for mode_idx in range(self.ndims):
             for r in range(self.ncomponents):
-                tmp = np.linalg.norm(self.factor_matrices[mode_idx][:, r], ord=normtype)
+                tmp = _column_norm(self.factor_matrices[mode_idx][:, r], normtype)
                 if tmp > 0:
                     self.factor_matrices[mode_idx][:, r] = (
                         1.0 / tmp * self.factor_matrices[mode_idx][:, r]
